@@ -107,9 +107,17 @@ class Report:
         """(deferred to finish(): floors and instances are complete by then)"""
         self.__dict__.setdefault("_deferred", []).append(lambda: self._supersede(old_rules, new_rule, what))
 
-    def arbitrate(self, old_rules, new_rule: str, what: str, pred=None) -> None:
-        """(deferred to finish(); arbitration runs before supersession)"""
-        self.__dict__.setdefault("_deferred_first", []).append(lambda: self._arbitrate(old_rules, new_rule, what, pred))
+    def arbitrate(self, old_rules, new_rule: str, what: str, pred=None, also=()) -> None:
+        """(deferred to finish(); arbitration runs before supersession). `also`: further rules every instance of which must hold
+        (the counterpart has to cover every input class the structural rule covers)."""
+        def go():
+            for r in also:
+                rs = [i for i in self.instances if i.rule == r]
+                if not rs or any(i.verdict != HOLDS for i in rs):
+                    return 0
+            return self._arbitrate(old_rules, new_rule, what, pred)
+
+        self.__dict__.setdefault("_deferred_first", []).append(go)
 
     def _supersede(self, old_rules, new_rule: str, what: str) -> int:
         """A structural rule that ended UNDECIDED (its idiom was not recognised) is covered by a semantic rule that decides the
